@@ -45,7 +45,7 @@ PROPS["C13"] = {
     "level_text": "Machine-checked proofs for every history, any number of keys, any limit >= 1 and duration > 0: (A) at most `limit` admitted per window start, (B) at most 2*limit admitted in any closed interval of one duration (non-decreasing times), (C) a rejected attempt leaves exactly the time-driven roll, (D) a bucket idle for two durations (or an unseen key) is admitted, (E) decisions for a key in any multi-key history equal a single-key limiter without cleanup on its own attempts, (F) right after every admitted attempt each tracked key attempted within the last four durations. The executable exact-arithmetic model is compared decision-by-decision and tracked-key-set-by-set (hook tracked_keys) with the real limiter on generated histories on and off the dyadic grid; an independent naive per-key oracle judges (A)(B)(D)(E)(F) on the real decisions.",
     "level_note": "Trusted: Lean kernel; f32 admission arithmetic is abstracted by two laws (proved for the exact instance; IEEE f32 satisfies them for limit <= 2^24 by monotone rounding — argued, not proved; violated above: known finding); tokio paused clock; (C-strong: readmission 2 durations after the last ADMITTED attempt under exact arithmetic) is not proved yet.",
     "lean_modules": ["Passage.Props.C13"],
-    "cases": {"quick": 1200, "thorough": 30000},
+    "cases": {"quick": 1200, "thorough": 300000},
     "rule": "histories: 1..50 keys (thorough: ..2000), 1..300 attempts (thorough ..3000), six inter-arrival styles (one instant, sub-window, exact d/2d boundaries +-1 unit, multiples of d, mixed), limits 1..50, durations 1ns..hours; half on the dyadic grid (f32 exact), half off-grid (rounding ties within 2^-20 dropped and counted in runner_tail); plus saturation probes at limits 2^24 and 2^24+2; non-trivial = histories with at least one rejection or roll (every generated history with > 1 attempt); distinct = distinct request lines",
     "trusted_base": TB_COMMON + [
         "admission arithmetic abstracted by Arith laws L1/L2; f32 conformance for limit <= 2^24 is argued and tested, not proved",
@@ -72,7 +72,7 @@ PROPS["C05"] = {
     "level_text": "Machine-checked proofs quantified over every cipher state machine, every plaintext and every schedule of Pending / partial / full acceptance and of read sizes: the bytes the transport accepted are one continuous encryption of exactly the plaintext reported as written and the cipher state ends at the end of that stream, across consecutive write_all calls; reads surface the continuous decryption of what the transport produced; before the switch both are the identity; CFB8 decryption inverts encryption with equal end registers. The model's poll functions are compared with the real CipherStream (driven by write_all / read / read_exact over a scripted AsyncRead+AsyncWrite) byte for byte, the ciphertext being predicted by an AES-128-CFB8 written in Lean; a third CFB8 on the raw aes block function judges the property.",
     "level_note": "Trusted: Lean kernel; tokio's write_all/read_exact loops are modelled (writeAll/readAll) and tied by the differential runs; AES-128 in Lean validated by FIPS-197/SP800-38A vectors and differential runs, not proved; the cfb8/aes crates.",
     "lean_modules": ["Passage.Props.C05"],
-    "cases": {"quick": 2500, "thorough": 120000},
+    "cases": {"quick": 2500, "thorough": 60000},
     "rule": "sessions of 1..6 operations (write_all of 1..600 bytes (thorough ..4096) under schedules: one byte per write, whole buffer, 1-3, 1-16, random sizes, Pending interleaved, zero-length acceptance, schedules one byte short; reads via read and read_exact over chunks of 1/16/1..80 bytes with Pending), random 16-byte secrets, switch to ciphertext at a random operation or never; non-trivial = every session; distinct = distinct request lines",
     "trusted_base": TB_COMMON + ["AES-128 (Lean) validated by published vectors + differential runs only", "tokio write_all/read_exact loop semantics modelled"],
     "assumptions": ["the transport reports honestly how many bytes it accepted"],
@@ -84,7 +84,7 @@ PROPS["C06"] = {
     "level_text": "Machine-checked proofs for every configuration, environment and input list: the clientbound packets always form a prefix of a word of StatusResponse·Pong | CookieReq·CookieReq?·EncryptionRequest·LoginSuccess·KeepAlive*·(StoreCookie?·StoreCookie?·Transfer | Disconnect); nothing follows the closing packet; a Status Request is answered by exactly the service's answer and the Ping by one Pong; Login Success is only emitted by the step that received an Encryption Response whose token field decrypts to this run's verify token; discovery starts only in the step receiving Client Information, a state only Login Acknowledged leads to; in handshake/status/login phases any other packet id ends the run with no reply.",
     "level_note": "Trusted: Lean kernel; the L0 machine is hand-written and tied by differential runs; RSA, serde_json, IP text forms, clock and RNG are Env oracles (theorems hold for every Env); tokio select!/Interval behaviour at frame level; cryptographic strength only as explicit hypotheses.",
     "lean_modules": ["Passage.Props.C06"],
-    "cases": {"quick": 1500, "thorough": 40000},
+    "cases": {"quick": 1500, "thorough": 300000},
     "rule": 'scripts walking the legal exchange with random deviations: packets of every phase and direction, unknown ids, unknown next-states, bad enum ordinals, repeated and skipped packets, early EOF, extra status requests, ticks; all three intents; non-trivial = scripts longer than the handshake; distinct = distinct request lines',
     "trusted_base": TB_COMMON + [
         "L0 machine (lean/Passage/Conn) is a hand transliteration of Connection::listen at frame level; tied by differential runs of the real Connection over an in-memory pipe under paused tokio time with logging mock adapters",
@@ -100,7 +100,7 @@ PROPS["C01"] = {
     "level_text": "Machine-checked proofs for every environment (every service verdict, RSA outcome, token, cookie) and input list: every Login Success, every filter/strategy call and every issued authentication cookie carries exactly the identity vouched for on that connection; an identity becomes vouched only by the authentication service — asked with the claimed name, the decrypted shared secret (the one and only secret the cipher is keyed with) and the server's public key, after this run's verify token came back — or by a cookie meeting C02's conjuncts; on service failure, undecryptable fields or a foreign/stale token nothing is sent and the run ends; the claimed identity is overwritten.",
     "level_note": "Trusted: Lean kernel; the L0 machine is hand-written and tied by differential runs; RSA, serde_json, IP text forms, clock and RNG are Env oracles (theorems hold for every Env); tokio select!/Interval behaviour at frame level; cryptographic strength only as explicit hypotheses.",
     "lean_modules": ["Passage.Props.C01"],
-    "cases": {"quick": 1200, "thorough": 30000},
+    "cases": {"quick": 1200, "thorough": 300000},
     "rule": 'cross product of intents x encryption-response kinds (honest, wrong token, stale token, other RSA key, garbage ciphertexts, secrets of 0/15/17/32 bytes) x service verdicts (same identity, other name, other uuid, other properties, error) x with/without a valid cookie for a third identity, routed to completion; the client decrypts with the secret it chose; non-trivial = every scenario; distinct = distinct request lines',
     "trusted_base": TB_COMMON + [
         "L0 machine (lean/Passage/Conn) is a hand transliteration of Connection::listen at frame level; tied by differential runs of the real Connection over an in-memory pipe under paused tokio time with logging mock adapters",
@@ -116,7 +116,7 @@ PROPS["C02"] = {
     "level_text": "Machine-checked proofs: authentication is skipped exactly when intent=Transfer, a secret is configured, the payload has >= 32 bytes, its first 32 bytes equal H(secret, rest), the rest parses as a cookie, names the client's IP and now <= min(ts+expiry, 2^64-1) — and then the identity is the cookie's; in every reachable state of every run a cleared flag implies Transfer intent and a secret; the flag is only cleared by that step; with the flag set Login Success requires the service's verdict, with it cleared the service is not consulted; every enumerated negative is rejected.",
     "level_note": "Trusted: Lean kernel; the L0 machine is hand-written and tied by differential runs; RSA, serde_json, IP text forms, clock and RNG are Env oracles (theorems hold for every Env); tokio select!/Interval behaviour at frame level; cryptographic strength only as explicit hypotheses.",
     "lean_modules": ["Passage.Props.C02"],
-    "cases": {"quick": 1500, "thorough": 40000},
+    "cases": {"quick": 1500, "thorough": 300000},
     "rule": 'per scenario one of: absent, empty, truncation at a random length, single-bit flip in the tag, single-bit flip in the body, tag under another secret, valid tag over non-JSON, valid tag over JSON of the wrong shape, 31- and 32-byte payloads, unmodified; x Login/Transfer x secret/none x IPv4/IPv6 same/other address x ages around expiry boundaries x expiries 0..u64::MAX; non-trivial = every scenario; distinct = distinct request lines',
     "trusted_base": TB_COMMON + [
         "L0 machine (lean/Passage/Conn) is a hand transliteration of Connection::listen at frame level; tied by differential runs of the real Connection over an in-memory pipe under paused tokio time with logging mock adapters",
@@ -132,7 +132,7 @@ PROPS["C03"] = {
     "level_text": "Machine-checked proofs for every environment: the filter call carries exactly discovery's answer and the strategy call exactly the filters' answer; a chosen target yields exactly one Transfer with its IP text and port as the last packet; no choice yields the Disconnect localized for the locale of this run's Client Information and no Transfer; any failure sends nothing; no other step ever emits a Transfer; the built-in localisation returns the entry of the first table along [locale, its '_'-prefixes longest first, default, its prefixes].",
     "level_note": "Trusted: Lean kernel; the L0 machine is hand-written and tied by differential runs; RSA, serde_json, IP text forms, clock and RNG are Env oracles (theorems hold for every Env); tokio select!/Interval behaviour at frame level; cryptographic strength only as explicit hypotheses.",
     "lean_modules": ["Passage.Props.C03"],
-    "cases": {"quick": 1200, "thorough": 30000},
+    "cases": {"quick": 1200, "thorough": 300000},
     "rule": 'routed logins with target lists over IPv4/IPv6/mapped addresses, ports 0/1/65535, duplicates, empty; filter/strategy verdicts subset, reorder, empty, non-member choice, none, error; locales de_DE, de, xx_YY, en_us, empty, a_b_c; mock localisation (argument capture) and the real FixedLocalizationAdapter with random tables; keep-alive traffic interleaved; non-trivial = every scenario; distinct = distinct request lines',
     "trusted_base": TB_COMMON + [
         "L0 machine (lean/Passage/Conn) is a hand transliteration of Connection::listen at frame level; tied by differential runs of the real Connection over an in-memory pipe under paused tokio time with logging mock adapters",
@@ -148,7 +148,7 @@ PROPS["C10"] = {
     "level_text": "Machine-checked proofs: a freshly authenticated, routed player with a secret is sent before the Transfer tag||JSON with tag = H(secret, JSON) and JSON = ser(now, client address, authenticated identity, chosen target id); presenting it on a Transfer connection from the same IP within the expiry (second environment sharing only tag function, JSON library and configuration) clears the flag and yields the same identity; without secret, or after cookie authentication, no auth cookie is ever sent; a session cookie with the handshake's host and port is sent iff the client presented none.",
     "level_note": "Trusted: Lean kernel; the L0 machine is hand-written and tied by differential runs; RSA, serde_json, IP text forms, clock and RNG are Env oracles (theorems hold for every Env); tokio select!/Interval behaviour at frame level; cryptographic strength only as explicit hypotheses.",
     "lean_modules": ["Passage.Props.C10"],
-    "cases": {"quick": 800, "thorough": 20000},
+    "cases": {"quick": 800, "thorough": 200000},
     "rule": 'two-connection histories: authenticate and get routed (identities, property lists with/without signature, target ids, IPv4/IPv6 clients, secrets of 0..100 bytes or none, with/without/null session cookie), then reconnect from another port of the same IP with exactly what was stored; non-trivial = every scenario; distinct = distinct request lines',
     "trusted_base": TB_COMMON + [
         "L0 machine (lean/Passage/Conn) is a hand transliteration of Connection::listen at frame level; tied by differential runs of the real Connection over an in-memory pipe under paused tokio time with logging mock adapters",
@@ -164,7 +164,7 @@ PROPS["C04"] = {
     "level_text": "Machine-checked proofs for every byte sequence and every input interleaving: no decoder of any packet schema can reach a panic outcome (negative, zero, huge, off-by-one inner lengths, over-long VarInts, invalid UTF-8, bad ordinals all yield error values); a length-prefixed field is only produced from bytes actually present; a frame whose declared length is <= 0 or > max ends the connection at the byte completing the prefix with nothing buffered; the receive buffer never exceeds 5 + max bytes in any reachable state; EOF finishes the handler in that step and it is silent afterwards; whenever a result is reported the connection is done. Every syntactic panic/allocation site of the anchored files is re-extracted on every run and must be in the accounted list. The real handler is run on mutated transcripts with panic capture and the largest single allocation measured.",
     "level_note": "Trusted: Lean kernel; L1 hand-written, tied by differential runs; panic-site patterns of the extractor; std/tokio Vec growth policy (bound 4*(max+5)+64KiB per single allocation in the oracle); third-party crates covered by runs only.",
     "lean_modules": ["Passage.Props.C04"],
-    "cases": {"quick": 1600, "thorough": 60000},
+    "cases": {"quick": 1600, "thorough": 300000},
     "rule": "legal transcripts (all intents, cookies, long hosts/names) with one mutation: outer length -1/MIN/0/max/max+1/2^31-1/off-by-one/over-long 5-byte VarInt; first inner length -1/MIN/2^31-1/2^30/remaining(+1)/70000; truncation at a random offset + EOF; invalid UTF-8; enum ordinals out of range; garbage RSA blocks and secrets of 0/1/15/17/100 bytes; random bytes before and after the cipher switch; EOF at any step; max frame 64..100000; non-trivial = every mutated scenario; distinct = distinct request lines",
     "trusted_base": TB_COMMON + [
         "L1 = frame assembler + L0 machine, hand transliteration of receive_packet/next_frame/send_packet; tied by differential byte-level runs of the real Connection (segmented writes, throttled transport, counting allocator, catch of task panics)",
@@ -180,7 +180,7 @@ PROPS["C08"] = {
     "level_text": "Machine-checked proofs for every interleaving of bytes, ticks, adapter completions and EOF: the byte-level connection's packets, adapter calls and result equal those of the frame-level machine on the schedule in which each frame is placed where its last byte arrived (which never mentions segmentation); schedules delivering the same bytes with events at the same byte positions behave identically; a tick/completion/EOF commutes with any byte that does not complete a frame; on the send side, after any sends under any partial acceptance and cancellation pattern, accepted ++ pending is exactly the concatenation of whole frames in order. The real Connection is run on every variant (single split per frame, byte-by-byte, multi-split, events inside frames and inside length prefixes, throttled transport with futures dropped mid-write) and compared with the model and with the unsegmented run of the same scenario.",
     "level_note": "Trusted: Lean kernel; L1 hand-written (the handler never reads beyond the frame it assembles, so byte-at-a-time consumption is its observable semantics) and tied by differential runs; tokio select! drops the losing future (modelled as cancel); duplex pipe and paused clock.",
     "lean_modules": ["Passage.Props.C08"],
-    "cases": {"quick": 200, "thorough": 4000},
+    "cases": {"quick": 200, "thorough": 40000},
     "rule": "base scenarios (status, login, transfer with cookie, long hosts/names so that length prefixes have two bytes, keep-alive traffic and ignorable frames during routing) x variants: one split per frame at a random offset, one byte at a time, random multi-splits, adapter completion or tick moved inside the preceding frame (body) or inside its length prefix, throttled writes (1-5 bytes then Pending) with the sending future dropped by an adapter completion; non-trivial = every variant other than the unsegmented base; distinct = distinct request lines",
     "trusted_base": TB_COMMON + [
         "L1 = frame assembler + L0 machine, hand transliteration of receive_packet/next_frame/send_packet; tied by differential byte-level runs of the real Connection (segmented writes, throttled transport, counting allocator, catch of task panics)",
@@ -196,7 +196,7 @@ PROPS["C12"] = {
     "level_text": "Machine-checked proofs for every claimed name (any byte string) and every hash: decoding the encoded name returns the name; the encoding contains none of & = # ? / or space; parsing the query as a server does (split on &, first =, form-decode) yields exactly one username equal to the name and one serverId equal to the hash; the target is the constant path, one ?, then that query. The real adapter is driven with hostile names against a plain-HTTP mock on loopback and the raw request line is compared with the model's target byte for byte; the hash is the C11 model's. Non-2xx and non-JSON replies must be errors.",
     "level_note": "Trusted: Lean kernel; the url/reqwest crates' query serialisation is modelled (Url.enc) and compared on every case; the hook replaces scheme and authority of the session URL only (path and query untouched); hyper's request-line formatting.",
     "lean_modules": ["Passage.Props.C12"],
-    "cases": {"quick": 1200, "thorough": 60000},
+    "cases": {"quick": 1200, "thorough": 300000},
     "rule": "names from a list of delimiter/injection strings (&, =, #, ?, %, +, space, /, control characters, %26 look-alikes, multi-byte UTF-8, full injection attempts), pairs of them, random printable ASCII, ordinary names; server ids incl. ones with delimiters; random secrets and key encodings; replies profile/204/500/non-JSON; non-trivial = names with a non-alphanumeric character; distinct = distinct request lines",
     "trusted_base": TB_COMMON + ["url/reqwest/hyper request construction (captured request line compared with the model)", "verif-hooks: PASSAGE_VERIF_SESSION_BASE replaces scheme+authority only"],
     "assumptions": ["the session server parses the query as application/x-www-form-urlencoded"],
@@ -208,7 +208,7 @@ PROPS["C19"] = {
     "level_text": "Machine-checked proofs for every IP type whose parser inverts its printer: fromWire (toWire t) = t (identifier, IPv4/IPv6 address, port, metadata); a wire target converts exactly when its address is present, its host is an IP address and its port fits 16 bits, and then carries the reply's own values; anything else is an error; the Select request carries toWire of every candidate in order and the player, uuid, client and server addresses unchanged; a candidate echoed by the service comes back identical. The real GrpcDiscoveryAdapter/GrpcStrategyAdapter are run against a tonic mock (requests captured, replies scripted) on targets in every textual IP form, every port class, duplicate/empty metadata and malformed replies.",
     "level_note": "Trusted: Lean kernel; std::net IpAddr Display/FromStr round trip is a recorded hypothesis (verdicts recorded per host string and handed to the model); tonic/prost transport; HashMap iteration order canonicalised by sorting.",
     "lean_modules": ["Passage.Props.C19"],
-    "cases": {"quick": 1200, "thorough": 40000},
+    "cases": {"quick": 1200, "thorough": 300000},
     "rule": "discovery replies of 0..4 targets with IPv4/IPv6 hosts in compressed, full, mapped, upper-case, loopback, unspecified forms, ports 0/1/25565/65535, metadata with duplicates and empty strings, one malformed entry in a third of the replies (missing address, non-IP host incl. bracketed and zone forms, port > 65535); strategy calls with 0..4 candidates, replies: echo of a candidate, none, foreign or malformed target, service error; non-trivial = every call with at least one target; distinct = distinct request lines",
     "trusted_base": TB_COMMON + ["std::net IP text round trip (recorded hypothesis)", "tonic/prost encode-decode of the messages"],
     "assumptions": ["parseIp (showIp a) = some a"],
@@ -233,7 +233,7 @@ PROPS["C07"] = {
     "level_text": "Machine-checked proofs for every environment and state: in the configuration phase a tick with nothing outstanding sends exactly one Keep Alive (hence consecutive Keep Alives are one period apart, the first within one period), a tick with one outstanding sends the localized timeout Disconnect and ends with MissedKeepAlive; a Keep Alive is never sent while one is outstanding; the outstanding id is cleared only by a configuration-phase frame and kaEcho clears only the SAME id (wrong, duplicate, unsolicited echoes change nothing); MissedKeepAlive has no other cause (for environments whose services report their own errors); and for EVERY sequence of ticks and adapter completions — any backend latencies — a client echoing each Keep Alive on receipt is never dropped. The period constant is re-extracted from the source. The real Connection is run under tokio virtual time with latencies of 0..4 periods per adapter, Client Information at 0..40 s and echo policies prompt/delayed/late/never/wrong id/duplicate/unsolicited; packet timestamps are checked against K1-K4.",
     "level_note": "Trusted: Lean kernel; tokio Interval semantics (period, first tick immediate, Skip) are modelled as one tick input per period while the handler waits for input and tied by the virtual-time runs; inline-awaited adapters return promptly; keep-alive ids distinct (elapsed milliseconds).",
     "lean_modules": ["Passage.Props.C07"],
-    "cases": {"quick": 400, "thorough": 12000},
+    "cases": {"quick": 400, "thorough": 100000},
     "rule": "login to the configuration phase, then a timeline: Client Information at 50 ms / 5 s / 20 s / 40 s, discovery/filter/strategy latencies from {0, 3, 17, 33, 70 s} (thorough up to 40 periods), per Keep Alive an echo policy (prompt +150 ms, delayed 8 s / 15.7 s, duplicate, and in 40% of scenarios one Keep Alive late +16.15 s / never / wrong id), optional unsolicited echo; events at ms offsets away from tick instants; non-trivial = every scenario with at least one tick; distinct = distinct request lines",
     "trusted_base": TB_COMMON + ["tokio Interval/paused-clock semantics (ticks delivered one per period by the harness, as under real time)", "Env oracles as for the frame-level properties"],
     "assumptions": ["the client reads what it is sent (no back-pressure)", "EnvSane: backend services never report MissedKeepAlive themselves"],
@@ -250,7 +250,7 @@ PROPS["C14"] = {
     "level_text": "Machine-checked proofs: for every Plumbing with all hops present and every Config, the connection's configuration is exactly (auth_secret, auth_cookie_expiry, max_packet_length, timeout) — and then C04's refusal-at-the-prefix theorem and C02's expiry/address theorem hold at the OPERATOR's values; every missing hop is observable for some configuration; for every Deadline structure with the header wait and the protocol under one deadline measured from the accept, and every client timing (header never / at any instant, protocol never finishing / finishing at any instant) the close instant exists and is ≤ timeout, a client that finishes in time is not cut short, and every missing deadline is observable. The plumbing and deadline facts of the current source are re-extracted each run and the instantiation theorems re-proved. Real runs: servers started from a Config value by passage::start on loopback; probes declare frame lengths around the configured and the default limit, present cookies aged around the configured and the default expiry signed with the configured or another secret, and stay silent / drip one byte every 40 ms / stop after Login Start / sit in the configuration phase (gated backend) / withhold or delay the PROXY header; close instants are measured from the accept.",
     "level_note": "Partial by nature: the timers are tokio's and the clock is real — the model carries which waits are under which deadline; elapsed times are sampled with 350 ms tolerance. Trusted: Lean kernel; extraction patterns; cookie ages kept ≥ 5 s from the boundary; the keep-alive-for-ever client (first Keep Alive after 16 s) runs in the thorough tier only.",
     "lean_modules": ["Passage.Props.C14"],
-    "cases": {"quick": 36, "thorough": 240},
+    "cases": {"quick": 36, "thorough": 1500},
     "rule": "one third limit probes (configured max from {64..100000}, declared length max-1/max/max+1/10000/10001/random), one third cookie probes (configured expiry from {30, 600, 21600, 100000} s, age around it and around the default, 1 in 4 with a foreign secret), one third deadline probes (timeout 1 s / 2 s; PROXY off: silent, drip, after Login Start, in configuration with a gated backend, or a finishing status client; PROXY on: header withheld, partial header, header after 800 ms then silent / login / configuration / finishing); thorough adds two 18–20 s keep-alive-answering clients; every case is non-trivial; distinct = distinct request lines",
     "trusted_base": TB_LISTENER,
     "assumptions": ["loopback latency and scheduling noise stay below the 350 ms tolerance"],
